@@ -193,6 +193,32 @@ func cmdCheck(args []string) {
 		}
 	}
 	solveAll(obs, outDir, timeout, *jobs, seed, which, true)
+	// Second attempt for what the first left open: an obligation that no solver
+	// decided within the budget is tried once more with three times the budget
+	// and another random seed (a few quantified obligations sit close to the
+	// budget; a change that really breaks a clause still ends undecided or
+	// refuted, only later).
+	{
+		var retry []*Oblig
+		first := map[*Oblig]*SolveResult{}
+		for _, o := range obs {
+			if o.Result != nil && !o.Cover && (o.Result.Status == "timeout" || o.Result.Status == "unknown") {
+				retry = append(retry, o)
+			}
+		}
+		if len(retry) > 0 && len(retry) <= 24 {
+			for _, o := range retry {
+				first[o] = o.Result
+				o.Result = nil
+			}
+			solveAll(retry, outDir+"/retry", timeout*3, *jobs, seed+7, which, true)
+			for _, o := range retry {
+				if o.Result == nil || (o.Result.Status != "unsat" && o.Result.Status != "sat") {
+					o.Result = first[o]
+				}
+			}
+		}
+	}
 	if *tier == "thorough" {
 		// independent confirmation: every discharged obligation is re-run on a second solver
 		confirmAll(obs, outDir+"/confirm", timeout, *jobs, seed)
